@@ -297,6 +297,21 @@ func mountPathCleaned(c *core.Ctx) {
 					if cal != nil && cal.Pkg != nil && cal.Pkg.Pkg != nil && (cal.Pkg.Pkg.Path() == "path/filepath" || cal.Pkg.Pkg.Path() == "path") && (cal.Name() == "Clean" || cal.Name() == "Join") {
 						continue
 					}
+					// a helper of the package that makes the path: every string it returns
+					if cal != nil && cal.Blocks != nil && cal.Pkg == sf.Pkg && cal != sf && cal.Signature.Results().Len() == 1 {
+						all := true
+						for _, cb := range cal.Blocks {
+							for _, cin := range cb.Instrs {
+								if cr, ok := cin.(*ssa.Return); ok && len(cr.Results) == 1 && !walk(cr.Results[0], depth+1) {
+									all = false
+								}
+							}
+						}
+						if all {
+							continue
+						}
+						return false
+					}
 					why = "it can come from " + x.String()
 					return false
 				case *ssa.BinOp:
